@@ -143,7 +143,7 @@ fn audit_dir(
       match gunzip(&bytes) {
         Ok(c) => c,
         Err(e) => {
-          out.push(finding("roller", "compressed-file-unreadable", ctx_variant, format!("{} cannot be gunzipped: {}", n, e), json!({"file": n})));
+          out.push(finding("roller", "compressed-file-unreadable", "gunzip", format!("[{}] {} cannot be gunzipped: {}", ctx_variant, n, e), json!({"file": n})));
           continue;
         }
       }
@@ -151,8 +151,8 @@ fn audit_dir(
       bytes
     };
     if rolled.contains_key(&canon) {
-      out.push(finding("roller", "duplicate-record", &format!("{}-both-plain-and-compressed", ctx_variant),
-        format!("{} exists both compressed and uncompressed", canon), json!({"file": canon})));
+      out.push(finding("roller", "duplicate-record", "plain-and-compressed-copy",
+        format!("[{}] {} exists both compressed and uncompressed", ctx_variant, canon), json!({"file": canon})));
       continue;
     }
     rolled.insert(canon, (content, compressed));
@@ -163,8 +163,8 @@ fn audit_dir(
     match rolled.get(name) {
       Some((now, _)) => {
         if now != content {
-          out.push(finding("roller", "rolled-file-content-changed", ctx_variant,
-            format!("rolled file {} (first seen at step {}) changed from {} to {} bytes", name, seen, content.len(), now.len()), json!({"file": name})));
+          out.push(finding("roller", "rolled-file-content-changed", "existing-rolled-file",
+            format!("[{}] rolled file {} (first seen at step {}) changed from {} to {} bytes", ctx_variant, name, seen, content.len(), now.len()), json!({"file": name})));
         }
       }
       None => vanished.push(name.clone()),
@@ -173,8 +173,8 @@ fn audit_dir(
   for v in &vanished {
     audit.known.remove(v);
     if policy.max_retained_sequences.is_none() {
-      out.push(finding("roller", "rolled-file-vanished", &format!("{}-no-retention-configured", ctx_variant),
-        format!("rolled file {} disappeared although no retention limit is configured", v), json!({"file": v})));
+      out.push(finding("roller", "rolled-file-vanished", "no-retention-configured",
+        format!("[{}] rolled file {} disappeared although no retention limit is configured", ctx_variant, v), json!({"file": v})));
     } else {
       audit.retention_deletions += 1;
     }
@@ -191,8 +191,8 @@ fn audit_dir(
   // --- retention count
   if let Some(k) = policy.max_retained_sequences {
     if rolled.len() > k as usize {
-      out.push(finding("roller", "retention-exceeded", ctx_variant,
-        format!("{} rolled files present, max_retained_sequences = {}", rolled.len(), k), json!({"files": rolled.keys().collect::<Vec<_>>() })));
+      out.push(finding("roller", "retention-exceeded", "rolled-file-count",
+        format!("[{}] {} rolled files present, max_retained_sequences = {}", ctx_variant, rolled.len(), k), json!({"files": rolled.keys().collect::<Vec<_>>() })));
     }
   }
   // --- records: every file is an ascending contiguous run; together (ordered by their first
@@ -206,7 +206,7 @@ fn audit_dir(
       Ok(v) => all.push((name.clone(), v)),
       Err(e) => {
         torn = true;
-        out.push(finding("roller", "torn-line", ctx_variant, format!("rolled file {}: {}", name, e), json!({"file": name})));
+        out.push(finding("roller", "torn-line", "rolled-file", format!("[{}] rolled file {}: {}", ctx_variant, name, e), json!({"file": name})));
       }
     }
   }
@@ -214,11 +214,11 @@ fn audit_dir(
     Some(Ok(v)) => all.push(("<active>".into(), v)),
     Some(Err(e)) => {
       torn = true;
-      out.push(finding("roller", "torn-line", ctx_variant, format!("active file: {}", e), json!({})));
+      out.push(finding("roller", "torn-line", "active-file", format!("[{}] active file: {}", ctx_variant, e), json!({})));
     }
     None => {
       if written > 0 {
-        out.push(finding("roller", "active-file-missing", ctx_variant, "the active log file does not exist".into(), json!({})));
+        out.push(finding("roller", "active-file-missing", "after-step", format!("[{}] the active log file does not exist", ctx_variant), json!({})));
       }
     }
   }
@@ -230,12 +230,12 @@ fn audit_dir(
     for w in v.windows(2) {
       if w[1] != w[0] + 1 {
         let rule = if w[1] <= w[0] { "reordered-record" } else { "lost-record" };
-        out.push(finding("roller", rule, &format!("{}-inside-one-file", ctx_variant), format!("{}: record {} is followed by {}", name, w[0], w[1]), json!({"file": name})));
+        out.push(finding("roller", rule, "inside-one-file", format!("[{}] {}: record {} is followed by {}", ctx_variant, name, w[0], w[1]), json!({"file": name})));
       }
     }
     for x in v {
       if !seen.insert(*x) {
-        out.push(finding("roller", "duplicate-record", ctx_variant, format!("record {} appears twice (second time in {})", x, name), json!({"file": name})));
+        out.push(finding("roller", "duplicate-record", "across-files", format!("[{}] record {} appears twice (second time in {})", ctx_variant, x, name), json!({"file": name})));
       }
     }
     if let (Some(a), Some(b)) = (v.first(), v.last()) {
@@ -245,14 +245,14 @@ fn audit_dir(
   runs.sort();
   for w in runs.windows(2) {
     if w[1].0 > w[0].1 + 1 {
-      out.push(finding("roller", "lost-record", ctx_variant,
-        format!("records {}..{} are missing between {} and {} although older records are still present", w[0].1 + 1, w[1].0 - 1, w[0].2, w[1].2), json!({})));
+      out.push(finding("roller", "lost-record", "gap-between-files",
+        format!("[{}] records {}..{} are missing between {} and {} although older records are still present", ctx_variant, w[0].1 + 1, w[1].0 - 1, w[0].2, w[1].2), json!({})));
     }
   }
   // the active file must hold the newest records
   if let Some(last) = runs.last() {
     if last.2 != "<active>" && all.iter().any(|(n, v)| n == "<active>" && !v.is_empty()) {
-      out.push(finding("roller", "reordered-record", ctx_variant, format!("rolled file {} holds newer records than the active file", last.2), json!({})));
+      out.push(finding("roller", "reordered-record", "rolled-newer-than-active", format!("[{}] rolled file {} holds newer records than the active file", ctx_variant, last.2), json!({})));
     }
   }
   if written > 0 {
@@ -260,20 +260,20 @@ fn audit_dir(
     let can_be_empty = policy.max_retained_sequences.is_some();
     match newest {
       Some(n) if n == written - 1 => {}
-      Some(n) => out.push(finding("roller", "lost-record", &format!("{}-newest", ctx_variant),
-        format!("newest record on disk is {}, last written is {}", n, written - 1), json!({}))),
+      Some(n) => out.push(finding("roller", "lost-record", "newest-record",
+        format!("[{}] newest record on disk is {}, last written is {}", ctx_variant, n, written - 1), json!({}))),
       None => {
         // everything rolled away and deleted by retention: only legal with a retention limit
         if !can_be_empty {
-          out.push(finding("roller", "lost-record", &format!("{}-newest", ctx_variant), format!("no record on disk, {} written", written), json!({})));
+          out.push(finding("roller", "lost-record", "newest-record", format!("[{}] no record on disk, {} written", ctx_variant, written), json!({})));
         }
       }
     }
     if policy.max_retained_sequences.is_none() {
       let oldest = runs.first().map(|r| r.0);
       if oldest != Some(0) {
-        out.push(finding("roller", "lost-record", &format!("{}-oldest-no-retention-configured", ctx_variant),
-          format!("oldest record on disk is {:?} although nothing may ever be deleted", oldest), json!({})));
+        out.push(finding("roller", "lost-record", "oldest-record-without-retention-limit",
+          format!("[{}] oldest record on disk is {:?} although nothing may ever be deleted", ctx_variant, oldest), json!({})));
       }
     }
   }
